@@ -70,8 +70,9 @@ def _check_1d(desc, tier, V, st):
     for der in (0, 1):
         R = np.array([S.row(x, der) for x in X])
         RL = None
-        if der == 1 and S.d == 1:
-            RL = np.array([S.row(x, der, 'left') if float(x) in interior else S.row(x, der) for x in X])
+        # the derivative of a degree-1 spline jumps at the interior breakpoints: the value there is the right-hand slope, as for
+        # the oracle the property names (scipy.interpolate.BSpline is right-continuous); accepting either side would let a span
+        # search that is inconsistent at breakpoints pass
         ref[der] = (R, RL)
     nc = S.nc
     rev = np.arange(len(X))[::-1]
@@ -295,12 +296,7 @@ def _check_2d(da, db, tier, V, st):
     sp = Spline2D(b1, b2)
     dense = [np.array([[((5 * i * i + 3 * j + 7 * i * j) % 13) - 6.0 for j in range(n2)] for i in range(n1)]), np.ones((n1, n2))]
     for d1, d2 in itertools.product((0, 1), repeat=2):
-        if (d1 and S1.d == 1) or (d2 and S2.d == 1):
-            # one-sided ambiguity at knots of degree-1 splines: drop the knots of that direction
-            xi = [k for k, x in enumerate(X) if not (d1 and S1.d == 1 and float(x) in set(map(float, S1.br)))]
-            yi = [k for k, y in enumerate(Y) if not (d2 and S2.d == 1 and float(y) in set(map(float, S2.br)))]
-        else:
-            xi, yi = list(range(len(X))), list(range(len(Y)))
+        xi, yi = list(range(len(X))), list(range(len(Y)))          # breakpoints of degree-1 directions included (right-hand slope)
         Xs, Ys = X[xi], Y[yi]
         R1, R2 = B1[d1][xi], B2[d2][yi]
         sc1 = 1.0 if not d1 else S1.d / float(min(S1.br[k + 1] - S1.br[k] for k in range(S1.ncells)))
